@@ -54,6 +54,8 @@ def gen_retry(rng):
         "status": rng.choice([None, None, 0, 1, 2]),
         "other": rng.choice([None, None, 0, 1, 2]),
     }
+    if rng.random() < 0.15:
+        spec[rng.choice(["connect", "read", "status", "other"])] = False  # "no retry for this category" (the statement's False domain)
     if spec["total"] is False and rng.random() < 0.5:
         spec = {"total": False}
     am = rng.choice(["default", "default", None, ["POST"]])
@@ -192,7 +194,7 @@ def run(sc: dict) -> Result:
         # ---- effective policy (what the statement calls the applicable budgets)
         eff = retry_obj
         if eff is None:
-            eff_fields = dict(total=3, connect=None, read=None, status=None, other=None)
+            eff_fields = {x: default_before[x] for x in ("total", "connect", "read", "status", "other")}  # the library default, read before the call
             policy = Retry.DEFAULT
         elif eff is False:
             eff_fields = dict(total=False, connect=None, read=None, status=None, other=None)
